@@ -594,10 +594,9 @@ impl<'a, K: Check> WorkerCtx<'a, K> {
             }
             if !out.inner_hashes.is_empty() {
                 st.nontrivial_hashes.extend(out.inner_hashes.iter().copied());
-                st.inner_nontrivial += out.inner_nontrivial;
-            } else if out.evals > 1 || out.inner_nontrivial > 0 {
-                st.inner_nontrivial += out.inner_nontrivial;
-            } else if out.nontrivial {
+            }
+            st.inner_nontrivial += out.inner_nontrivial;
+            if out.nontrivial && out.inner_hashes.is_empty() && out.inner_nontrivial == 0 {
                 st.nontrivial_hashes.insert(case_hash(case));
             }
             for l in &out.labels {
